@@ -49,6 +49,16 @@ def generate(rng, tier):
         truth = {ren[p]: v for p, v in truth.items()}
         info = {ren[p]: v for p, v in info.items()}
         cases.append({"files": files, "rules": rules, "truth": truth, "info": info, "jobs": rng.randint(2, 4), "keep": False, "meta": {"pattern": "longpaths"}})
+    # an engine that takes longer to wind down than any plausible shutdown timeout: its database is dropped only after it has gone
+    if tier == "quick":
+        lingers = [6500]
+    else:
+        lingers = [1500, 6500, 11000]
+    for ms in lingers:
+        files, rules, truth, info = clifam.make_set(rng, 2, kinds=["pass"], parallel=True)
+        slow = sorted(truth)[0]
+        rules.append({"start_db_prefix": clifam.case_name(slow) + "_", "linger_ms": ms})
+        cases.append({"files": files, "rules": rules, "truth": truth, "info": info, "jobs": 2, "keep": False, "meta": {"pattern": "slow-close"}})
     return cases
 
 
